@@ -232,6 +232,9 @@ func convertMbtiles(logger *log.Logger, input string, output string, deduplicate
 			bar.Add(1)
 		}
 	}
+	if len(resolve.Entries) == 0 {
+		return fmt.Errorf("no non-empty tiles in MBTiles archive")
+	}
 	if header.TileType == Mvt {
 		// the resolver gzips every MVT tile that is not already gzipped
 		header.TileCompression = Gzip
